@@ -91,14 +91,19 @@ def check_success(ctx, w, pre, post, placed):
                    % (pid, rcid))
 
 
-def base_world(ctx, nprov, rcs, consumers, bystanders, ratio_fixed=None):
+def base_world(ctx, nprov, rcs, consumers, bystanders, ratio_fixed=None,
+               tree='flat'):
     w = World(ctx)
     for rc in rcs:
         w.rc(rc)
     w.project('proj')
     w.user('user')
+    w.consumer_type('INSTANCE')
     for p in range(1, nprov + 1):
-        w.provider(p)
+        # 'chain': p1 <- p2 <- p3 ...; 'star': p1 <- p2, p1 <- p3
+        parent = None if p == 1 or tree == 'flat' else \
+            (p - 1 if tree == 'chain' else 1)
+        w.provider(p, parent=parent)
         for rc in rcs:
             kw = {}
             if ratio_fixed is not None:
@@ -119,10 +124,10 @@ def base_world(ctx, nprov, rcs, consumers, bystanders, ratio_fixed=None):
     return w
 
 
-def fam_put(nprov, rcs, version='1.36', ratio_fixed=None):
+def fam_put(nprov, rcs, version='1.36', ratio_fixed=None, tree='flat'):
     def path(ctx):
         app.setup()
-        with base_world(ctx, nprov, rcs, [1], [2], ratio_fixed) as w:
+        with base_world(ctx, nprov, rcs, [1], [2], ratio_fixed, tree) as w:
             pre = w.dump()
             placed = {}
             allocs = {}
@@ -133,16 +138,15 @@ def fam_put(nprov, rcs, version='1.36', ratio_fixed=None):
                     res[rc] = a
                     placed.setdefault((p, w.rcs[rc]), []).append(a)
                 allocs[U(p)] = {'resources': res}
-            cgen = ctx.int('req_cgen')
-            gen_null = ctx.bool('req_cgen_null')
-            v = tuple(int(x) for x in version.split('.'))
-            body = {'allocations': allocs, 'project_id': 'proj',
-                    'user_id': 'user'}
-            if v >= (1, 28):
-                body['consumer_generation'] = None if symex.fork(gen_null) \
-                    else cgen
-            if v >= (1, 38):
-                body['consumer_type'] = 'INSTANCE'
+            from checks import corpus
+            if version == 'sym':
+                # every microversion: the band fixes the document format,
+                # the minor inside it is symbolic
+                lo, hi = corpus.BANDS_PUT[symex.choose(len(corpus.BANDS_PUT))]
+                app.sym_minor(ctx, lo, hi)
+                body = corpus._alloc_body(ctx, allocs, '1.%d' % lo, n=1)
+            else:
+                body = corpus._alloc_body(ctx, allocs, version, n=1)
             r = app.call('PUT', '/allocations/' + CONS(1), body,
                          version=version)
             post = w.dump()
@@ -151,9 +155,10 @@ def fam_put(nprov, rcs, version='1.36', ratio_fixed=None):
             elif r.status >= 500:
                 runner.violation(ctx, 'no-5xx', 'status %d' % r.status)
             return finish(ctx, str(r.status))
-    name = 'put-%dp-%s%s@%s' % (nprov, '+'.join(rcs),
-                                '-ratio%s' % ratio_fixed if ratio_fixed
-                                else '', version)
+    name = 'put-%dp%s-%s%s@%s' % (nprov, '' if tree == 'flat' else
+                                  '-' + tree, '+'.join(rcs),
+                                  '-ratio%s' % ratio_fixed if ratio_fixed
+                                  else '', version)
     return Family(name, path, expect={'204', '409', '400'},
                   bounds=dict(providers=nprov, classes=list(rcs),
                               consumers='1 writer (new or existing), '
@@ -164,16 +169,17 @@ def fam_put(nprov, rcs, version='1.36', ratio_fixed=None):
                                        'requested amounts, generations'))
 
 
-def fam_post(nprov, rcs, clear_first=False, version='1.36'):
-    """POST /allocations: consumer 1 (existing or not) and consumer 3 (new)
-    land on the same inventories; bystander 2."""
+def fam_post(nprov, rcs, clear_first=False, version='1.36',
+             writers=(1, 3), tree='flat'):
+    """POST /allocations: consumer 1 (existing or not) and the new consumers
+    3, 4.. land on the same inventories; bystander 2."""
     def path(ctx):
         app.setup()
-        with base_world(ctx, nprov, rcs, [1], [2]) as w:
+        with base_world(ctx, nprov, rcs, [1], [2], tree=tree) as w:
             pre = w.dump()
             placed = {}
             body = {}
-            for n in (1, 3):
+            for n in writers:
                 allocs = {}
                 if not (clear_first and n == 1):
                     for p in range(1, nprov + 1):
@@ -189,7 +195,12 @@ def fam_post(nprov, rcs, clear_first=False, version='1.36'):
                 else:
                     cg = None
                 body[CONS(n)] = {'allocations': allocs, 'project_id': 'proj',
-                                 'user_id': 'user', 'consumer_generation': cg}
+                                 'user_id': 'user'}
+                v = tuple(int(x) for x in version.split('.'))
+                if v >= (1, 28):
+                    body[CONS(n)]['consumer_generation'] = cg
+                if v >= (1, 38):
+                    body[CONS(n)]['consumer_type'] = 'INSTANCE'
             r = app.call('POST', '/allocations', body, version=version)
             post = w.dump()
             if r.status == 204:
@@ -197,8 +208,10 @@ def fam_post(nprov, rcs, clear_first=False, version='1.36'):
             elif r.status >= 500:
                 runner.violation(ctx, 'no-5xx', 'status %d' % r.status)
             return finish(ctx, str(r.status))
-    name = 'post-2c-%dp-%s%s' % (nprov, '+'.join(rcs),
-                                 '-clear' if clear_first else '')
+    name = 'post-%dc-%dp%s-%s%s%s' % (
+        len(writers), nprov, '' if tree == 'flat' else '-' + tree,
+        '+'.join(rcs), '-clear' if clear_first else '',
+        '' if version == '1.36' else '@' + version)
     return Family(name, path, expect={'204', '409', '400'},
                   bounds=dict(providers=nprov, classes=list(rcs),
                               consumers='2 writers on the same inventories '
@@ -232,16 +245,81 @@ def fam_reshape(move=True):
                               'allocation following it'))
 
 
+def fam_reshape_general():
+    """POST /reshaper rewriting the VCPU inventory of two providers (every
+    field the request can carry symbolic) and the allocations of an existing
+    and of a new consumer on both; a bystander keeps its own"""
+    def path(ctx):
+        app.setup()
+        with base_world(ctx, 2, ['VCPU'], [1], [2], tree='chain') as w:
+            pre = w.dump()
+            inv = {}
+            for p in (1, 2):
+                inv[U(p)] = {
+                    'resource_provider_generation': ctx.int('req_gen%d' % p),
+                    'inventories': {'VCPU': {
+                        'total': ctx.int('rs_total%d' % p),
+                        'reserved': ctx.int('rs_reserved%d' % p),
+                        'min_unit': ctx.int('rs_min%d' % p),
+                        'max_unit': ctx.int('rs_max%d' % p),
+                        'step_size': ctx.int('rs_step%d' % p)}}}
+            rc = w.rcs['VCPU']
+            a11, a12, a32 = (ctx.int(n) for n in ('a11', 'a12', 'a32'))
+            placed = {(1, rc): [a11], (2, rc): [a12, a32]}
+            null1 = symex.fork(ctx.bool('req_cgen1_null'))
+            allocs = {
+                CONS(1): {'allocations': {
+                    U(1): {'resources': {'VCPU': a11}},
+                    U(2): {'resources': {'VCPU': a12}}},
+                    'project_id': 'proj', 'user_id': 'user',
+                    'consumer_generation': None if null1
+                    else ctx.int('req_cgen1')},
+                CONS(3): {'allocations': {
+                    U(2): {'resources': {'VCPU': a32}}},
+                    'project_id': 'proj', 'user_id': 'user',
+                    'consumer_generation': None}}
+            r = app.call('POST', '/reshaper', {'inventories': inv,
+                                               'allocations': allocs},
+                         version='1.36', roles='admin,service')
+            post = w.dump()
+            if r.status == 204:
+                check_success(ctx, w, pre, post, placed)
+            elif r.status >= 500:
+                runner.violation(ctx, 'no-5xx', 'status %d' % r.status)
+            return finish(ctx, str(r.status))
+    return Family('reshape-general', path, expect={'204', '409', '400'},
+                  bounds=dict(providers='root + child', request='reshaper '
+                              'rewriting both inventories (5 symbolic fields '
+                              'each) and the allocations of 2 consumers'))
+
+
 def families(tier):
     fams = [fam_put(1, ['VCPU']), fam_reshape(True),
             fam_post(1, ['VCPU']),
-            fam_post(1, ['VCPU'], clear_first=True)]
+            fam_post(1, ['VCPU'], clear_first=True),
+            fam_put(1, ['VCPU'], version='sym'),
+            fam_reshape_general()]
     if tier == 'thorough':
         fams += [fam_reshape(False),
                  fam_put(2, ['VCPU']), fam_put(1, ['VCPU', 'DISK_GB']),
                  fam_post(2, ['VCPU']),
                  fam_put(1, ['VCPU'], version='1.12'),
-                 fam_put(1, ['VCPU'], version='1.39')]
+                 fam_put(1, ['VCPU'], version='1.39'),
+                 fam_put(2, ['VCPU'], tree='chain'),
+                 fam_put(3, ['VCPU'], tree='star'),
+                 fam_put(2, ['VCPU', 'DISK_GB']),
+                 fam_put(2, ['VCPU'], version='sym', tree='chain'),
+                 fam_put(1, ['VCPU'], version='1.0'),
+                 fam_put(1, ['VCPU'], version='1.8'),
+                 fam_put(1, ['VCPU'], version='1.28'),
+                 fam_put(1, ['VCPU'], ratio_fixed=1.5),
+                 fam_put(1, ['VCPU'], ratio_fixed=0.3),
+                 fam_post(1, ['VCPU'], writers=(1, 3, 4)),
+                 fam_post(2, ['VCPU'], tree='chain', clear_first=True),
+                 fam_post(1, ['VCPU', 'DISK_GB']),
+                 fam_post(1, ['VCPU'], version='1.13'),
+                 fam_post(1, ['VCPU'], version='1.28'),
+                 fam_post(1, ['VCPU'], version='1.38')]
     return fams
 
 
@@ -250,7 +328,8 @@ ASSUMPTIONS = [
     '(read from the schema object); allocation_ratio is any real <= maximum',
     '(total-reserved)*allocation_ratio and amount % step_size are '
     'uninterpreted (fmul/imod) in proofs, exact in counterexamples',
-    'database integer width not modelled (python/z3 integers)',
+    'bound parameters outside the signed 64-bit range raise like the '
+    'sqlite3 driver; stored integers of the pre-state within +-2^62',
     'projects/users pre-exist; uuids, names, tree shape concrete per family',
     'symbolic DB interpreter (engine/symdb.py) is the trusted model of SQL; '
     'differentially validated against SQLite by checks/tv.py',
